@@ -313,6 +313,25 @@ def writeDataBlock (b64enc : List Nat → Text) (deflate : List Nat → List Nat
   let out := toBytes big w (toOrder col shape elems)
   b64enc (if gz then deflate out else out)
 
+/-- The array the writer is handed lives in MEMORY with its own dtype byte order (`memBig`; e.g. '>i4' after
+    loading a document that declared BigEndian, or user-supplied non-native data): `mem` are its element bytes in
+    C order.  `np.asanyarray(dataarray, dtype)` (gifti.py:393, `dtype` = the native dtype of the declared data
+    type) converts by VALUE, so what reaches `tobytes(order)` are the element values re-encoded in the machine
+    order `big` — the bytes written never depend on `memBig`. -/
+def writeDataBlockMem (b64enc : List Nat → Text) (deflate : List Nat → List Nat)
+    (gz : Bool) (big : Bool) (w : Nat) (col : Bool) (shape : List Nat) (memBig : Bool) (mem : List Nat) :
+    Except Err Text :=
+  match fromBuffer memBig w mem with
+  | .ok vals => .ok (writeDataBlock b64enc deflate gz big w col shape vals)
+  | .error e => .error e
+
+/-- the bytes `_data_tag_element` hands to zlib/base64 (observable of the `wblock` correspondence stream) -/
+def writerBytes (big : Bool) (w : Nat) (col : Bool) (shape : List Nat) (memBig : Bool) (mem : List Nat) :
+    Except Err (List Nat) :=
+  match fromBuffer memBig w mem with
+  | .ok vals => .ok (toBytes big w (toOrder col shape vals))
+  | .error e => .error e
+
 /-- a concrete executable base64 decoder (what the driver plugs into `Ext.b64dec`): characters outside the
     alphabet are discarded (Python's non-validating mode), `=` ends the data; wrong length/padding = error -/
 def b64val (c : Char) : Option Nat :=
